@@ -116,6 +116,12 @@ func init() {
 				for i := 0; i < nf; i++ {
 					p.Faults = append(p.Faults, &Fault{Op: Pick(r, []string{"set", "set", "write", "any"}), Prefix: Pick(r, []string{"", "blk/", "blkidx/", "tbl/", "tblidx/"}), Nth: r.Range(1, 6), Sticky: r.Chance(0.4)})
 				}
+				if r.Chance(0.5) {
+					// more blocks than the sorter's output buffer (10) plus the workers can hold: when the ingest
+					// gives up, the sorter is still parked on a send
+					p.Synth.N = r.Range(16, 30) * 255
+					p.Cfg.Workers = r.Range(3, 6)
+				}
 			}
 			return p
 		},
